@@ -178,17 +178,24 @@ def clock_harnesses():
   hs.append(Harness("ClockTime.from_seconds.fields", clock_fields, [M + "ClockTime.from_seconds"], "replayers.c12:clock_time", {},
                     "millisecond clock times: fields in range, error at most 0.5 ms"))
 
-  def clock_monotone(ctx):
+  def clock_total(ctx):
     t = sym_frac("t")
-    t2 = sym_frac("t2")
     assume(t >= 0)
-    assume(t <= t2)
-    st, c1 = core.call_real(T.ClockTime.from_seconds, t)
-    st, c2 = core.call_real(T.ClockTime.from_seconds, t2)
-    prove(total_ms(c1) <= total_ms(c2), "P7-non-decreasing")
+    st, c = core.call_real(T.ClockTime.from_seconds, t)
+    prove(total_ms(c) == round(t * 1000), "P7-total-ms==round-half-even(1000t)")
 
-  hs.append(Harness("ClockTime.from_seconds.monotone", clock_monotone, [M + "ClockTime.from_seconds"], "replayers.c12:clock_time", {},
-                    "millisecond clock times are non-decreasing in their argument"))
+  hs.append(Harness("ClockTime.from_seconds.total", clock_total, [M + "ClockTime.from_seconds"], "replayers.c12:clock_time", {},
+                    "the printed clock time denotes round-half-even(1000 t) milliseconds"))
+
+  def round_monotone(ctx):
+    x = sym_frac("t")
+    y = sym_frac("t2")
+    assume(x <= y)
+    prove(round(x) <= round(y), "P7-lemma-round-half-even-is-monotone", kind="lemma")
+
+  hs.append(Harness("lemma.round-monotone", round_monotone, [], None, {},
+                    "lemma: rounding to the nearest integer is monotone; with ClockTime.from_seconds.total this gives: millisecond "
+                    "clock times are non-decreasing in their argument"))
 
   def neg(ctx):
     t = sym_frac("t")
